@@ -129,3 +129,26 @@ def lemma_mul_eq(a, b, p):
 
 
 HINT_LEMMAS += [lemma_mul_eq]
+
+
+def lemma_bitlen_mul(x, y):
+    """x, y > 0  ->  bitlen(x*y) in {bitlen(x)+bitlen(y)-1, bitlen(x)+bitlen(y)}"""
+    return implies(x > 0 and y > 0,
+                   bitlen(x * y) == bitlen(x) + bitlen(y) or bitlen(x * y) == bitlen(x) + bitlen(y) - 1)
+
+
+def lemma_shr_bitlen(x):
+    """x > 0  ->  x >> (bitlen(x)-1) == 1  and  x >> bitlen(x) == 0"""
+    return implies(x > 0, shr(x, bitlen(x) - 1) == 1 and shr(x, bitlen(x)) == 0)
+
+
+def lemma_odd_mul(a, b):
+    """a, b odd -> a*b odd"""
+    return implies(a % 2 == 1 and b % 2 == 1, (a * b) % 2 == 1)
+
+
+def lemma_mul_pos(a, b):
+    return implies(a > 0 and b > 0, a * b > 0)
+
+
+HINT_LEMMAS += [lemma_bitlen_mul, lemma_shr_bitlen, lemma_odd_mul, lemma_mul_pos]
